@@ -60,9 +60,58 @@ def cwd_scenario(viol):
         pr.destroy()
 
 
+def vanished_directory_scenario(viol):
+    """A directory that held known files is replaced by a plain file (the user reorganised the tree).  The files below it
+    are simply gone: the three queries still answer (exit 0, disjoint lists, the surviving files all named), what
+    redo-ood names for the survivors is still what a following redo-ifchange rebuilds, and that redo-ifchange works."""
+    import shutil
+    from proj import Project
+    pr = Project()
+    try:
+        os.makedirs(pr.path("d"))
+        pr.write("d/x.do", "redo-ifchange src\ncat src\n")
+        pr.write("d/src", "1\n")
+        pr.write("keep.do", "redo-ifchange ksrc\ncat ksrc\n")
+        pr.write("ksrc", "1\n")
+        rc, o, e = pr.run(["redo", "d/x", "keep"])
+        problems = []
+        if rc != 0:
+            problems.append("set-up build failed: " + e[-200:])
+        shutil.rmtree(pr.path("d"))
+        pr.write("d", "now a file\n")
+        pr.write("ksrc", "2\n")
+        lists = {}
+        for cmd in ("redo-targets", "redo-sources", "redo-ood"):
+            rc, o, e = pr.run([cmd])
+            lists[cmd] = sorted(l for l in o.split("\n") if l)
+            if rc != 0:
+                problems.append("%s exited %d: %s" % (cmd, rc, (e.strip().splitlines() or [""])[-1][:160]))
+        if not problems:
+            if set(lists["redo-targets"]) & set(lists["redo-sources"]):
+                problems.append("redo-targets and redo-sources both name %r" % sorted(set(lists["redo-targets"]) & set(lists["redo-sources"])))
+            for f in ("keep",):
+                if f not in lists["redo-targets"]:
+                    problems.append("redo-targets does not name %s" % f)
+            for f in ("ksrc", "keep.do"):
+                if f not in lists["redo-sources"]:
+                    problems.append("redo-sources does not name %s" % f)
+            if "keep" not in lists["redo-ood"]:
+                problems.append("redo-ood does not name keep although its source was edited")
+            rc, o, e = pr.run(["redo-ifchange", "keep"])
+            if rc != 0 or pr.read("keep") != b"2\n":
+                problems.append("redo-ifchange keep: exit %d, keep=%r" % (rc, pr.read("keep")))
+        if problems:
+            p = write_replay("C17", "vanished-dir", dict(kind="impl-monitor", problems=problems, lists=lists, scenario="d/x (target) and d/src known; rm -rf d; echo file >d; edit ksrc; redo-targets / redo-sources / redo-ood; redo-ifchange keep"))
+            viol.append(Violation("C17", p, "a directory of known files replaced by a plain file: " + "; ".join(problems[:3])))
+    finally:
+        pr.destroy()
+
+
 def run(ctx):
     viol = ctx.setdefault("violations", [])
     cwd_scenario(viol)
+    if not viol:
+        vanished_directory_scenario(viol)
     if viol:
         return dict(evaluations=1, distinct_nontrivial=1, rule="queries from several working directories", samples=[])
     cov = deps_check.run_property(ctx, "C17", FEATURES["C17"], NCASES["C17"], WANT["C17"], known_matcher=KNOWN.get("C17"))
